@@ -125,9 +125,13 @@ type c19Obs struct {
 var c19Seq int
 
 // c19RunTx drives one transaction connector-style: after an interruption only ProcessLogging follows.
-func c19RunTx(waf coraza.WAF, c *c19Case, txid, uri, clientIP string) (fired []int, interrupted bool, status int) {
+// mid (may be nil) runs right after the transaction has been created (used to close the WAF while it is in flight).
+func c19RunTx(waf coraza.WAF, c *c19Case, txid, uri, clientIP string, mid func()) (fired []int, interrupted bool, status int) {
 	tx := waf.NewTransactionWithID(txid)
 	defer tx.Close()
+	if mid != nil {
+		mid()
+	}
 	func() {
 		tx.ProcessConnection(clientIP, 40000, "10.9.9.9", 80)
 		tx.ProcessURI(uri, "POST", "HTTP/1.1")
@@ -204,7 +208,7 @@ func c19Exec(w *fw.W, c *c19Case, follow bool) (o, o2 *c19Obs) {
 	defer sl.CloseWAF(waf)
 	run := func(ob *c19Obs, cc *c19Case) {
 		ob.Panic = fw.Guard(func() {
-			ob.Fired, ob.Interrupted, ob.IntStatus = c19RunTx(waf, cc, ob.TxID, "/c19/"+ob.TxID, "10.1.2.3")
+			ob.Fired, ob.Interrupted, ob.IntStatus = c19RunTx(waf, cc, ob.TxID, "/c19/"+ob.TxID, "10.1.2.3", nil)
 		})
 		cbMu.Lock()
 		for id, m := range cbs {
@@ -342,7 +346,7 @@ func c19Judge(w *fw.W, c *c19Case, o *c19Obs) bool {
 	// harness cross-checks: is the execution the one the model assumed? (rule firing and interruptions are C01/C02 matters)
 	for i := range c.Rules {
 		r := &c.Rules[i]
-		if r.Phase == 5 && c.RuleEngine == "On" && c.denyRule() != nil {
+		if r.Phase == 5 && c.ruleEngine() == "On" && c.denyRule() != nil {
 			continue
 		}
 		want := 0
@@ -355,7 +359,7 @@ func c19Judge(w *fw.W, c *c19Case, o *c19Obs) bool {
 			return false
 		}
 	}
-	if d := c.denyRule(); (d != nil && c.RuleEngine == "On") != o.Interrupted || (o.Interrupted && o.IntStatus != d.Deny) {
+	if d := c.denyRule(); (d != nil && c.ruleEngine() == "On") != o.Interrupted || (o.Interrupted && o.IntStatus != d.Deny) {
 		w.Count("model_mismatch_skipped", 1)
 		w.Cover("model_mismatch_samples", fmt.Sprintf("interruption observed=%v status=%d", o.Interrupted, o.IntStatus))
 		return false
@@ -367,6 +371,9 @@ func c19Judge(w *fw.W, c *c19Case, o *c19Obs) bool {
 	w.Count("formats:"+c.Format, 1)
 	w.Cover("formats", c.Format)
 	w.Cover("sinks", c.Sink)
+	if exp.Denies > 1 {
+		w.Count("multi_deny_"+exp.StatusSource, 1)
+	}
 	for i := range c.Rules {
 		for _, ctl := range c.Rules[i].Ctl {
 			k, _, _ := strings.Cut(ctl, "=")
@@ -673,6 +680,44 @@ func c19DecisionCase(table string, cell, rep int, seed int64, re, ae int, ctl c1
 	return c
 }
 
+// multi table: SecAuditEngine RelevantOnly with TWO or THREE disruptive rules firing in one transaction, statuses on
+// either side of the relevant-status pattern, in every phase combination (phase 1..4 each, so file order and
+// evaluation order differ in many cells): the status that counts is the one of the FIRST evaluated rule - the real
+// interruption under On, the would-be interruption under DetectionOnly (configured, or switched by ctl:ruleEngine).
+func c19MultiDims() []int {
+	return []int{3, 64 + 512, 2}
+}
+
+func c19MultiCell(cell, rep int, seed int64) *c19Case {
+	ix := c19Decode(cell, c19MultiDims())
+	c := &c19Case{Table: "multi", Cell: cell, AuditEngine: "RelevantOnly"}
+	c.RuleEngine = []string{"DetectionOnly", "On", "On"}[ix[0]]
+	c.Relevant = c19Patterns[c19Rot(2, cell, rep, seed, 1)]
+	c.DefFlags = c19DefFlagCombos[c19Rot(len(c19DefFlagCombos), cell, rep, seed, 2)]
+	c.Parts = c19PartsConfigs[c19Rot(len(c19PartsConfigs), cell, rep, seed, 3)]
+	c.Format = c19Formats[(cell+rep+int(seed))%len(c19Formats)]
+	c.Sink = c19SinkFor(cell/4, rep, seed)
+	c.RespStatus = []int{200, 503}[ix[2]]
+	if ix[0] == 1 {
+		c.Rules = append(c.Rules, c19Rule{ID: 3, Phase: 1, Flags: "nolog", Ctl: []string{"ruleEngine=DetectionOnly"}, NoMsg: true})
+	}
+	c.Rules = append(c.Rules, c19Rule{ID: 10, Phase: 1, Flags: c19FlagCombos[c19Rot(len(c19FlagCombos), cell, rep, seed, 4)]})
+	k, n := ix[1], 2
+	if k >= 64 {
+		k, n = k-64, 3
+	}
+	for i := 0; i < n; i++ {
+		ph := 1 + k%4
+		k /= 4
+		st := []int{403, 404}[k%2]
+		k /= 2
+		c.Rules = append(c.Rules, c19Rule{ID: 21 + i, Phase: ph, Deny: st, Flags: c19FlagCombos[c19Rot(len(c19FlagCombos), cell, rep, seed, 5+i)]})
+	}
+	c.Rules = append(c.Rules, c19Rule{ID: 30, Phase: 2, Flags: "log,auditlog", Never: true})
+	c.Rules = append(c.Rules, c19Rule{ID: 40, Phase: 5, Flags: c19FlagCombos[1+c19Rot(len(c19FlagCombos)-1, cell, rep, seed, 9)], Plain: true})
+	return c
+}
+
 // content table: audit engine On; flags of two fired rules x default list x parts x format (ctl on parts rotates).
 func c19ContentDims() []int {
 	return []int{len(c19FlagCombos), len(c19FlagCombos), len(c19DefFlagCombos) + 1, len(c19PartsConfigs), len(c19Formats)}
@@ -775,6 +820,7 @@ func c19Plan(tier fw.Tier, seed int64) []fw.Batch {
 	split("content", c19Product(c19ContentDims()), shards/2)
 	split("parts", c19Product(c19PartsDims()), 2)
 	split("late", c19Product(c19LateDims()), 2)
+	split("multi", c19Product(c19MultiDims()), 2)
 	return bs
 }
 
@@ -799,6 +845,8 @@ func c19Run(w *fw.W, b fw.Batch) {
 				c = c19ContentCell(cell, rep, w.Seed)
 			case "late":
 				c = c19LateCell(cell, rep, w.Seed)
+			case "multi":
+				c = c19MultiCell(cell, rep, w.Seed)
 			default:
 				c = c19PartsCell(cell, rep, w.Seed)
 			}
@@ -829,6 +877,8 @@ func c19WantFollow(c *c19Case, cell, rep int, seed int64) bool {
 	switch c.Table {
 	case "parts", "late":
 		return true
+	case "multi":
+		return c.RuleEngine != c.ruleEngine() // switched by ctl: the follow-up runs the same rules with the engine On
 	}
 	for i := range c.Rules {
 		if len(c.Rules[i].Ctl) > 0 {
@@ -867,7 +917,7 @@ func init() {
 	plugins.RegisterAuditLogWriter("verifc19", func() plugintypes.AuditLogWriter { return &c19PlugWriter{} })
 	fw.Register(&fw.Prop{
 		ID: "C19", Level: "exploration",
-		Rule: "five tables enumerated completely (exhaustive=true refers to them): DECISION = rule engine {On,DetectionOnly} x SecAuditEngine {On,Off,RelevantOnly} x ctl:auditEngine {none, On/Off/RelevantOnly in a rule of phase 1..4} x status source {response 200/404/403/503; deny with status 403/404 in phase 1..4 (real interruption under On, would-be under DetectionOnly) with response 200/503} x log flags of the deciding rule (9 lists of log/nolog/auditlog/noauditlog incl. none) x format {JSON,JsonLegacy,Native,OCSF}; CONTENT (engine On) = flags of two fired rules (9x9) x SecDefaultAction log flags (none + 4) x SecAuditLogParts (14 incl. none) x format (4); PARTS (engine On) = SecAuditLogParts (14) x ctl:auditLogParts (11 incl. none, +X, -X, absolute) x format (4) x 3 flag lists, the phase (1..5) of the ctl rule rotating; LATE = ctl:auditEngine {On,Off,RelevantOnly} executed by a rule of the logging phase (phase 5, evaluated before the audit decision) x rule engine (2) x SecAuditEngine (3) x status source (20) x format (4), the flags of the deciding rule rotating. Every ctl rule tests a request header, and for every cell of PARTS and LATE and a rotating quarter of the DECISION/CONTENT cells with a ctl rule a second transaction WITHOUT that header follows on the SAME WAF; its record, callbacks and parts are judged by the same decision function for the configured (not ctl-modified) engine and parts (violation classes prefixed followup:). Covering (not product) dimensions rotate with cell index, repetition and seed: relevant-status pattern, sink (plugin writer / serial file / concurrent directory+index, the files parsed), extra rules, hostile header/argument/body/message bytes. Every execution is a connector-style transaction finished by one ProcessLogging; the number of records, well-formedness, transaction id, listed rule ids and error-callback invocations are compared with a decision function written from the statement. Concurrent part (race build, sampled): G goroutines finishing transactions through ONE serial writer or ONE concurrent writer; files parsed afterwards, record ids compared with finished ids as multisets, index entries checked for interleaving. A case is non-trivial when at least one rule fired and every judgement was made without violation; distinct by hash of the whole case (configuration, rules, bytes, sink).",
+		Rule: "six tables enumerated completely (exhaustive=true refers to them): DECISION = rule engine {On,DetectionOnly} x SecAuditEngine {On,Off,RelevantOnly} x ctl:auditEngine {none, On/Off/RelevantOnly in a rule of phase 1..4} x status source {response 200/404/403/503; deny with status 403/404 in phase 1..4 (real interruption under On, would-be under DetectionOnly) with response 200/503} x log flags of the deciding rule (9 lists of log/nolog/auditlog/noauditlog incl. none) x format {JSON,JsonLegacy,Native,OCSF}; CONTENT (engine On) = flags of two fired rules (9x9) x SecDefaultAction log flags (none + 4) x SecAuditLogParts (14 incl. none) x format (4); PARTS (engine On) = SecAuditLogParts (14) x ctl:auditLogParts (11 incl. none, +X, -X, absolute) x format (4) x 3 flag lists, the phase (1..5) of the ctl rule rotating; LATE = ctl:auditEngine {On,Off,RelevantOnly} executed by a rule of the logging phase (phase 5, evaluated before the audit decision) x rule engine (2) x SecAuditEngine (3) x status source (20) x format (4), the flags of the deciding rule rotating. MULTI (SecAuditEngine RelevantOnly) = rule engine {DetectionOnly configured, On switched to DetectionOnly by ctl:ruleEngine in the first phase-1 rule, On} x every list of two or three deny rules with a phase 1..4 and a status 403/404 each (64 + 512 lists: same and different phases, file order against evaluation order, statuses on either side of the pattern) x response status {200,503}; format and pattern rotate. The status that counts is the one of the FIRST evaluated disruptive rule (real under On, would-be under DetectionOnly); the ctl-switched cells are followed by a transaction without the switch (real interruption) on the same WAF. Every ctl rule tests a request header, and for every cell of PARTS and LATE and a rotating quarter of the DECISION/CONTENT cells with a ctl rule a second transaction WITHOUT that header follows on the SAME WAF; its record, callbacks and parts are judged by the same decision function for the configured (not ctl-modified) engine and parts (violation classes prefixed followup:). Covering (not product) dimensions rotate with cell index, repetition and seed: relevant-status pattern, sink (plugin writer / serial file / concurrent directory+index, the files parsed), extra rules, hostile header/argument/body/message bytes. Every execution is a connector-style transaction finished by one ProcessLogging; the number of records, well-formedness, transaction id, listed rule ids and error-callback invocations are compared with a decision function written from the statement. Concurrent part (race build, sampled): G goroutines finishing transactions through ONE serial writer or ONE concurrent writer; in every second round each goroutine creates its last transaction, then the WAF is closed (experimental.WAFCloser / io.Closer) while half of those transactions finish concurrently with Close and the other half strictly after it - all of them must still be recorded exactly once; files parsed afterwards, record ids compared with finished ids as multisets, index entries checked for interleaving. A case is non-trivial when at least one rule fired and every judgement was made without violation; distinct by hash of the whole case (configuration, rules, bytes, sink).",
 		Assumptions: []string{
 			"fired rules are taken from Transaction.MatchedRules(); which rules fire is C01/C02/C08 territory. A cross-check against the generator's own expectation skips (and counts) executions that differ",
 			"log flags are judged from the generated flag lists (log: both, nolog: neither, auditlog/noauditlog: audit bit only, applied left to right after the SecDefaultAction list of the phase), never from MatchedRule.Audit()/Log()",
@@ -875,7 +925,7 @@ func init() {
 			"field names are used only to locate the transaction id and rule ids (JSON: transaction.id, messages[].data.id / error_message; JsonLegacy: transaction.transaction_id, audit_data.messages[] text prefix; OCSF: http_request.uid, enrichments[].data; Native: section A line, K raw rules, H [id \"N\"]); timestamps, ordering and other fields are not judged",
 			"a clean race-detector run covers only the schedules that occurred",
 		},
-		Required:   []string{"ctl_fired_in_phase5", "followup_transactions", "table_cells", "records_expected", "records_seen", "records_parsed", "callbacks", "records_with_rules_judged", "concurrent_records", "concurrent_files_parsed", "formats"},
+		Required:   []string{"multi_deny_detectiononly", "multi_deny_interruption", "close_inflight_transactions", "ctl_fired_in_phase5", "followup_transactions", "table_cells", "records_expected", "records_seen", "records_parsed", "callbacks", "records_with_rules_judged", "concurrent_records", "concurrent_files_parsed", "formats"},
 		Exhaustive: true,
 		Plan:       c19Plan,
 		Run:        c19Run,
